@@ -438,7 +438,13 @@ func (a *arrayObject) _defineIdxProperty(idx uint32, desc PropertyDescriptor, th
 		}
 		if a.expand(idx) {
 			a.values[idx] = prop
-			a.objCount++
+			// the counters follow what the slot held before (a redefinition of an existing element adds nothing)
+			if existing == nil {
+				a.objCount++
+			}
+			if _, ok := existing.(*valueProperty); ok {
+				a.propValueCount--
+			}
 			if _, ok := prop.(*valueProperty); ok {
 				a.propValueCount++
 			}
